@@ -4,7 +4,7 @@
 
    Model: HD/HD.v (`parse` = NewKeyFromString, `to_string` = String).  secp256k1 enters through
    ser_point / parse_point / pzero with the hypotheses listed in the Section. *)
-From BU Require Import Lib.Bytes Lib.Sha256 Base58.Base58 Gen.Nets HD.HD HD.HDRun HD.XKeyProofs HD.XKeyReach HD.HDExamples.
+From BU Require Import Lib.Bytes Lib.Sha256 Base58.Base58 Gen.Nets HD.HD HD.HDRun HD.XKeyProofs HD.XKeyReach HD.HDExamples HD.HDConsistent.
 
 Section C05.
 Variable point : Type.
@@ -107,3 +107,8 @@ Example C05_vector1_roundtrip :
   | _, _ => False
   end.
 Proof. exact tv1_parse_roundtrip. Qed.
+
+(* the Section hypotheses about the dependencies are jointly satisfiable (the group Z_n, constant HMAC/HASH160,
+   the real SHA-256d): the theorems above are not vacuous *)
+Example C05_hypotheses_consistent : hypotheses_statement.
+Proof. exact hypotheses_consistent. Qed.
